@@ -390,6 +390,46 @@ func jobC03(c *rt.Ctx) {
 			}
 		}
 	}
+	// the empty message handed over as a nil slice (Sign accepts it, so every verifier must): single
+	// verification in both modes and a member of batches at the first / last positions of every chunk
+	c.Require("nil-message")
+	for vi, vs := range []variantSpec{vPure, vCtx} {
+		for _, zip := range []bool{false, true} {
+			if !c.Take() {
+				continue
+			}
+			c.Class("nil-message")
+			c.Distinct(fmt.Sprintf("nilmsg %d %v", vi, zip), true)
+			k := NewKeyFromSeed(seedOf(7000 + vi))
+			sig, err := k.Sign(nil, nil, vs.opts(false))
+			if err != nil {
+				c.Violation("C03 nil-message sign", fmt.Sprintf("Sign refuses a nil message: %v", err), nil)
+				continue
+			}
+			t := triple{append([]byte{}, k[32:]...), nil, sig}
+			if ok, pv := implSingleOpts(t, vs, zip); !ok || pv != nil {
+				c.Violation("C03 nil-message single", fmt.Sprintf("own signature over the nil (= empty) message rejected by single verification (%s, zip215=%v)", vs, zip), map[string]interface{}{"variant": vs.String(), "panic": fmt.Sprint(pv)})
+			}
+			for _, n := range []int{3, 4, 70} {
+				for _, pos := range []int{0, 2, 3, 5, 63, 64, 69} {
+					if pos >= n {
+						continue
+					}
+					entries := append([]triple{}, fillers(vs, n)...)
+					entries[pos] = t
+					all, valid, berr, bpv := implBatch(entries, vs, zip, rt.NewRng(c.Seed, "c03nil"))
+					c.Step(1)
+					bad := bpv != nil || berr != nil || !all || len(valid) != n
+					for _, v := range valid {
+						bad = bad || !v
+					}
+					if bad {
+						c.Violation("C03 nil-message batch", fmt.Sprintf("own signature over the nil (= empty) message at position %d of %d: batch reported all=%v valid=%v err=%v", pos, n, all, valid, berr), map[string]interface{}{"variant": vs.String(), "zip215": zip, "pos": pos, "n": n})
+					}
+				}
+			}
+		}
+	}
 	// batches of n distinct honest signatures: every member position of that size at once
 	sizes := []int{1, 2, 3, 4, 5, 7, 8, 63, 64, 65, 67, 68, 69, 127, 128, 129, 131, 200}
 	for _, n := range sizes {
